@@ -658,7 +658,11 @@ install_logger_models(MODELS)
 _FMT_RE = re.compile(r"([pPufrst])(\d+)")
 
 
-def parse_fmt(fmt):
+def parse_fmt(fmt, I=None):
+    from .core import SFmt
+    if isinstance(fmt, SFmt) and I is not None:
+        # decide the symbolic int parts of the format by enumeration of their feasible values
+        fmt = "".join([p if isinstance(p, str) else str(I.e.choose_value(p.z, max_values=70)) for p in fmt.parts])
     if not isinstance(fmt, str):
         raise Undecided("bitstruct format not concrete")
     pos = 0
@@ -679,7 +683,7 @@ def _foreign(what):
 
 def bs_pack(I, args, kwargs):
     e = I.e
-    items = parse_fmt(args[0])
+    items = parse_fmt(args[0], I)
     vals = list(args[1:])
     total = sum(n for _, n in items)
     nbytes = (total + 7) // 8
@@ -754,7 +758,7 @@ def bs_unpack_from(I, args, kwargs):
     offset = args[2] if len(args) > 2 else kwargs.get("offset", 0)
     if is_sym(offset):
         raise Undecided("bitstruct offset symbolic")
-    items = parse_fmt(fmt)
+    items = parse_fmt(fmt, I)
     if not ops.is_bytes_like(data):
         raise _foreign("unpack of non-bytes")
     b = ops.as_sbytes(data)
